@@ -989,6 +989,20 @@ class Interp:
             eq_prefix.append(n == o)
         return z3.Or(*conds) if len(conds) > 1 else conds[0]
 
+    def exec_ghost(self, src):
+        import textwrap
+        tree = ast.parse(textwrap.dedent(src))
+        saved = getattr(self, 'ghost_mode', False)
+        self.ghost_mode = True
+        try:
+            for st in tree.body:
+                for n in ast.walk(st):
+                    if hasattr(n, 'lineno'):
+                        n.lineno = getattr(self, 'code_line', 0)
+                self.exec_block([st])
+        finally:
+            self.ghost_mode = saved
+
     def ev_pure(self, node):
         saved = self.pure
         self.pure = True
@@ -1023,6 +1037,9 @@ class Interp:
     # ------------------------------------------------------------------ statements
     def assign(self, target, value):
         if isinstance(target, ast.Name):
+            ls = self.fn_contract.locals_.get(target.id) if self.fn_contract is not None else None
+            if ls is not None and value is not None:
+                value = self.coerce(value, ls)
             self.env[target.id] = value
             return
         if isinstance(target, (ast.Tuple, ast.List)):
@@ -1081,13 +1098,13 @@ class Interp:
         self.env['__out__'] = self.out
 
     def st_Assign(self, s):
-        v = self.ev(s.value)
+        v = self.ev_pure(s.value) if getattr(self, 'ghost_mode', False) else self.ev(s.value)
         for t in s.targets:
             self.assign(t, v)
 
     def st_AugAssign(self, s):
         cur = self.ev(s.target)
-        v = self.binop(s.op, cur, self.ev(s.value))
+        v = self.binop(s.op, cur, self.ev_pure(s.value) if getattr(self, 'ghost_mode', False) else self.ev(s.value))
         self.assign(s.target, v)
 
     def st_Return(self, s):
@@ -1295,7 +1312,9 @@ class Interp:
         except BreakSig:
             self.loop_ctx.pop()
             return
-        # 4. back edge
+        # 4. back edge: ghost code first (it describes the step just taken in terms of the loop state)
+        for src in spec.ghost_back:
+            self.exec_ghost(src)
         for cl in spec.inv:
             self.oblige('inv:' + cl.name, self.to_bool(self.ev_pure(cl.node)), 'invariant-preserved')
         if spec.decreases:
